@@ -142,7 +142,8 @@ Struct(F)  == [t |-> "struct", f |-> F, tail |-> FALSE]
 StructTail(F) == [t |-> "struct", f |-> F, tail |-> TRUE]   \* last field: ListOf(X) tagged `tail`
 Ptr(T)     == [t |-> "ptr", of |-> T, nilok |-> FALSE, any |-> FALSE]
 NilPtr(T)  == [t |-> "ptr", of |-> T, nilok |-> TRUE, any |-> FALSE]     \* field tagged `nil`
-(* diagnostic variant: a `nil` field that takes either kind of empty value *)
+(* diagnostic variant: a `nil` field that takes either kind of empty value (what the decoder did
+   until fix b7e1712); only used by the monitor to name that class of failure, never as the oracle *)
 RECURSIVE Lenient(_)
 Lenient(T) == CASE T.t = "ptr" -> [T EXCEPT !.of = Lenient(T.of), !.any = T.nilok]
                 [] T.t \in {"list", "larr"} -> [T EXCEPT !.of = Lenient(T.of)]
